@@ -75,6 +75,7 @@ type Pipe struct {
 	// write-side failure: writes fail once writeOps reaches failWriteAt (0-based count of Write calls)
 	failWriteAt int
 	writeOps    int
+	broken      bool // a write was refused: the stream is dead for its reader too
 
 	overlap atomic.Int32 // concurrent Write calls observed (framing monitor)
 	Overlap atomic.Int32 // maximum seen
@@ -110,6 +111,8 @@ func (p *Pipe) Write(b []byte) (int, error) {
 	op := p.writeOps
 	p.writeOps++
 	if p.failWriteAt >= 0 && op >= p.failWriteAt {
+		p.broken = true
+		p.cond.Broadcast()
 		return 0, ErrInjectedWrite
 	}
 	if p.rclosed || p.wclosed {
@@ -237,7 +240,7 @@ func (p *Pipe) WaitWritten(pred func(tap []byte) bool) bool {
 		if pred(p.tap) {
 			return true
 		}
-		if p.wclosed || p.rclosed {
+		if p.wclosed || p.rclosed || p.broken {
 			return false
 		}
 		p.cond.Wait()
